@@ -29,7 +29,7 @@ use vh::prng::Rng;
 use vh::refwire::{self, labels_of, WHeader};
 
 use crate::cfg::{self, Config, HKind};
-use crate::model::{self, Tri};
+use crate::model;
 use crate::{obs, proto_name, reqgen};
 
 #[derive(Clone)]
@@ -349,7 +349,6 @@ pub fn run(ctx: &Ctx, rep: &mut Reporter) {
         rt.block_on(batch(rep, &cfg, ip, reqs, id0));
     }
     mon::set_quiet(false);
-    let _ = Tri::No;
 }
 
 pub fn replay(rep: &mut Reporter, cfg: &Config, c: &Value) {
